@@ -89,7 +89,7 @@ import ast
 import json
 import os
 
-from harness.c11 import translate_lineage
+from harness.c11 import translate_lineage, translate_entry
 
 HERE = os.path.dirname(os.path.abspath(__file__))
 
@@ -102,6 +102,7 @@ TRANSLATED = ['pyramid/authorization.py:ACLHelper.permits',
               'pyramid/util.py:is_nonstr_iter',
               'pyramid/location.py:lineage',
               'pyramid/security.py:AllPermissionsList.__contains__']
+TRANSLATED += translate_entry.TRANSLATED
 FALLBACK = os.path.join(HERE, 'gen_fallback.json')
 
 # ---- types of the translated fragment
@@ -1218,6 +1219,11 @@ def translate_source(text, others=None):
         out.append('Definition %s %s :=\n  %s.\n' % (d['gen'], d['sig'], body))
     if tree is not None:
         check_globals(tree, used, problems)
+    # the public routes of pyramid/security.py: harness/c11/translate_entry.py
+    eo, esum = translate_entry.translate(others.get('pyramid/security.py'), problems, fb)
+    summary.update(esum)
+    for g, sig, body in eo:
+        out.append('Definition %s %s :=\n  %s.\n' % (g, sig, body))
     return '\n'.join(out), problems, summary
 
 
@@ -1255,6 +1261,10 @@ if __name__ == '__main__':
             fbs[spec['gen']] = translate_leaf(spec, _read(os.path.join(root, spec['file'])), pr)
             assert fbs[spec['gen']] and not pr, pr
         pr = []
+        eo, _ = translate_entry.translate(_read(os.path.join(root, 'pyramid/security.py')), pr, {})
+        assert not pr, pr
+        for g, sig, body in eo:
+            fbs[g] = body
         fbs['gen_lineage'] = translate_lineage.translate(_read(os.path.join(root, 'pyramid/location.py')), pr)
         assert fbs['gen_lineage'] and not pr, pr
         with open(FALLBACK, 'w') as f:
